@@ -2,6 +2,7 @@ package main
 
 import (
 	_ "embed"
+	"encoding/json"
 	"fmt"
 	"sync"
 	"time"
@@ -141,7 +142,7 @@ func init() {
 		if pk.Params == nil && o["params"] != nil {
 			// parameter sets not in the default table are re-installed from the declaration
 			pm := o["params"].(map[string]any)
-			u := func(k string) uint { return uint(pm[k].(float64)) }
+			u := func(k string) uint { n, _ := pm[k].(json.Number).Int64(); return uint(n) }
 			b := gabikeys.BaseParameters{LePrime: u("LePrime"), Lh: u("Lh"), Lm: u("Lm"), Ln: u("Ln"), Lstatzk: u("Lstatzk")}
 			pk.Params = &gabikeys.SystemParameters{BaseParameters: b, DerivedParameters: gabikeys.MakeDerivedParameters(b)}
 		}
